@@ -152,6 +152,26 @@ func runC20Paths(w *world.World, c caseC20, rec *kit.Recorder) error {
 	res := w.Tx(ctx, msg)
 	var q forwardertypes.QueryIsCrossChainPausedResponse
 	qerr := w.Query(ctx, fwdQuery+"IsCrossChainPaused", &forwardertypes.QueryIsCrossChainPausedRequest{ProtocolId: name, CounterpartyId: c.Counterparty}, &q)
+	// the same acceptance paths in a state where the protocol is paused as a whole: what counts as
+	// an identifier does not depend on the pause state
+	pctx := w.Branch()
+	pmsg, _ := kit.BuildAdmin(kit.Admin{Kind: "pause_protocol", Protocol: name})
+	if r := w.Tx(pctx, pmsg); !r.OK() {
+		return fmt.Errorf("harness: pausing %s failed: %v", name, r.Err)
+	}
+	pres := w.Tx(pctx, msg)
+	var pq forwardertypes.QueryIsCrossChainPausedResponse
+	pqerr := w.Query(pctx, fwdQuery+"IsCrossChainPaused", &forwardertypes.QueryIsCrossChainPausedRequest{ProtocolId: name, CounterpartyId: c.Counterparty}, &pq)
+	if !canonical {
+		switch {
+		case pres.OK():
+			return fmt.Errorf("with %s paused as a whole, PauseCrossChains accepts the non-canonical counterparty %q", name, c.Counterparty)
+		case pqerr == nil:
+			return fmt.Errorf("with %s paused as a whole, IsCrossChainPaused accepts the non-canonical counterparty %q (answer: paused=%v)", name, c.Counterparty, pq.IsPaused)
+		}
+	} else if pqerr != nil {
+		return fmt.Errorf("with %s paused as a whole, IsCrossChainPaused refuses the canonical domain %q: %v", name, c.Counterparty, pqerr)
+	}
 	// the dispatcher genesis carries cross-chain ids too, in the source and in the destination
 	// role of its amount and count records
 	disp := map[string]error{}
